@@ -161,6 +161,9 @@ class UfuncMonitor:
                         ctx.violation(o, f"result {key} = {m1.get(key)!r}, first signal operand has {m0.get(key)!r}", None, dict(feats, what="meta"))
                 if not monitors.same_time(m0["start"], m1["start"], 0):
                     ctx.violation(o, "result start_time differs from the first signal operand's", None, dict(feats, what="meta"))
+                if isinstance(self_, CountsSignal) and isinstance(r, CountsSignal) and (r.scale, r.unit_name) != (self_.scale, self_.unit_name):
+                    ctx.violation(o, f"result of np.{ufunc.__name__} on a user subclass lost its constructor arguments: scale/unit "
+                                     f"{(r.scale, r.unit_name)!r}, operand has {(self_.scale, self_.unit_name)!r}", None, dict(feats, what="subclass_args"))
                 got = r.data
             if refs[k] is None:
                 continue
@@ -223,6 +226,22 @@ UFUNCS = [f for i, f in enumerate(UFUNCS) if f not in UFUNCS[:i]]
 ARR = ["sig_sig", "sig_arr", "arr_sig", "sig_scalar", "scalar_sig", "sig_q", "q_sig", "sub_super", "super_sub", "sig_npscalar", "npscalar_sig"]
 
 
+class CountsSignal(pb.Signal):
+    """A user subclass whose extra metadata are ordinary (positional-or-keyword) constructor parameters, with defaults."""
+
+    def __init__(self, z, /, scale=1.0, unit_name="counts", *, sample_rate, start_time=None, meta=None):
+        super().__init__(z, sample_rate=sample_rate, start_time=start_time, meta=meta)
+        self._scale, self._unit_name = scale, unit_name
+
+    @property
+    def scale(self):
+        return self._scale
+
+    @property
+    def unit_name(self):
+        return self._unit_name
+
+
 def wl_ufunc(ctx, idx, rng):
     uf = UFUNCS[idx % len(UFUNCS)]
     arr = ARR[(idx // len(UFUNCS)) % len(ARR)] if uf.nin == 2 else "unary"
@@ -230,9 +249,11 @@ def wl_ufunc(ctx, idx, rng):
     use_dask = rng.random() < 0.2
     n = int(rng.integers(1, 6))
     sig, desc = gen.make_signal(rng, clsname, n, dask=use_dask)
+    if clsname == "Signal" and gen._side_rng(rng).random() < 0.3:
+        with probes.quiet():
+            sig = CountsSignal.like(sig, scale=float(rng.integers(2, 9)), unit_name="K")
+        desc["user_subclass"] = True
     x = gen.np_data(sig)
-    if np.dtype(sig.dtype).kind in "fc":
-        pass
     desc.update(ufunc=uf.__name__, arrangement=arr)
     ctx.describe_case(desc)
     ctx.sample(desc)
